@@ -7,16 +7,30 @@ EXTENDS RecordStore, Json
 CONSTANTS MaxLen,    \* operations per emitted history / depth bound of the breadth-first search
           Emit,      \* print finished histories as JSON
           Timed,     \* histories with clock ticks, expiry times a few seconds ahead and relative expiries
-          BfsKeys    \* index of the key set of the breadth-first search (BfsKeySets)
+          BfsKeys,   \* index of the key set of the breadth-first search (BfsKeySets)
+          BfsOpt     \* Always... option of the interface in the breadth-first search ("none", "sec", "cj", "abs", "rel")
 
-VARIABLES st, now, keys, hist, done
-vars == <<st, now, keys, hist, done>>
+VARIABLES st, now, keys, hist, done,
+          opt        \* [k, x]: the Always... option of the interface of this history (x: offset for "abs", seconds for "rel")
+vars == <<st, now, keys, hist, done, opt>>
 
 T0 == 1000
 
 \* key sets of emitted histories: the first four are legal for the file-tree backend
 KeyChoices == << {KAB, KABC, KAD, KAB2}, {KA, KAB2, KXYZ}, {KAB, KAD, KAB2, KXYZ}, {KAB, KABC, KAD, KAB2, KXYZ},
                  {KAB, KABC, KAD, KAB2}, {KAB, KAD, KAB2, KXYZ}, AllKeys, {KA, KAB, KAB2} >>
+
+\* interface options of emitted histories: mostly none; expiries far ahead (and, in timed histories, a few seconds ahead)
+OptChoices == << [k |-> "none", x |-> 0], [k |-> "none", x |-> 0], [k |-> "none", x |-> 0], [k |-> "none", x |-> 0],
+                 [k |-> "sec", x |-> 0], [k |-> "cj", x |-> 0], [k |-> "abs", x |-> 3600], [k |-> "rel", x |-> 3600],
+                 [k |-> "abs", x |-> IF Timed THEN 3 ELSE 3600], [k |-> "rel", x |-> IF Timed THEN 2 ELSE 3600] >>
+\* the option as the operations carry it: an absolute expiry is fixed when the interface is created
+\* (what an expiry option does to a record that its writer hands in marked deleted is not documented: setting an expiry
+\*  clears the mark in the code; such records are not generated for these interfaces)
+NoDel(o) == IF opt.k \in {"abs", "rel"}
+            THEN [o EXCEPT !.m = [@ EXCEPT !.del = FALSE], !.batch = [j \in 1..Len(o.batch) |-> [o.batch[j] EXCEPT !.m = [@ EXCEPT !.del = FALSE]]]]
+            ELSE o
+OptOf(o) == WithOpt(NoDel(o), opt.k, IF opt.k = "abs" THEN T0 + opt.x ELSE opt.x)
 
 BfsKeySets == << {KAB, KAD}, {KA, KAB2}, {KAB, KABC, KAB2}, {KA, KAD, KXYZ} >>
 
@@ -25,6 +39,8 @@ Init == /\ st = Empty
         /\ keys \in (IF Emit THEN {KeyChoices[RandomElement(1..Len(KeyChoices))]} ELSE {BfsKeySets[BfsKeys]})
         /\ hist = <<>>
         /\ done = FALSE
+        /\ opt \in (IF Emit THEN {OptChoices[RandomElement(1..Len(OptChoices))]}
+                    ELSE {[k |-> BfsOpt, x |-> IF BfsOpt \in {"abs", "rel"} THEN 3600 ELSE 0]})
 
 \* ---------------------------------------------------------------- random operations (Emit = TRUE)
 \* every component is drawn separately (the product sets are far too large to enumerate); the dummy
@@ -111,22 +127,22 @@ Pick(S) == IF Emit THEN {RandomElement(S)} ELSE S
 
 DoOp == /\ ~done /\ Len(hist) < MaxLen
         /\ \E o \in (IF Emit THEN {RandOp(keys, 0)} ELSE BfsOps(keys)) :
-           \E x \in Pick(StepAt(st, Concretize(o, now), now)) :
+           \E x \in Pick(StepAt(st, OptOf(Concretize(o, now)), now)) :
               /\ st' = x.st
               /\ now' = IF o.op = "Tick" THEN now + o.x ELSE now
-              /\ hist' = Append(hist, IF Emit THEN o ELSE 0)
-        /\ UNCHANGED <<keys, done>>
+              /\ hist' = Append(hist, IF Emit THEN NoDel(o) ELSE 0)
+        /\ UNCHANGED <<keys, done, opt>>
 
 Finish == /\ Emit /\ Len(hist) = MaxLen /\ ~done
           /\ done' = TRUE
-          /\ PrintT(<<"@@", ToJson([keys |-> keys, fs |-> SegFree(keys), timed |-> Timed, steps |-> hist])>>)
-          /\ UNCHANGED <<st, now, keys, hist>>
+          /\ PrintT(<<"@@", ToJson([keys |-> keys, fs |-> SegFree(keys), timed |-> Timed, opt |-> opt, steps |-> hist])>>)
+          /\ UNCHANGED <<st, now, keys, hist, opt>>
 
 Next == DoOp \/ Finish
 Spec == Init /\ [][Next]_vars
 
 \* ---------------------------------------------------------------- invariants (Emit = FALSE)
 StateOK == WellFormedState(st) /\ VisibleKeys(st, now) \subseteq {k \in AllKeys : st[k].present} /\ \A k \in AllKeys \ keys : st[k] = Absent
-LawsOK == OpLaws(st, {Concretize(o, now) : o \in BfsOps(keys)}, now)
-View == <<st, now, Len(hist), done>>
+LawsOK == OpLaws(st, {OptOf(Concretize(o, now)) : o \in BfsOps(keys)}, now)
+View == <<st, now, Len(hist), done, opt>>
 ====
